@@ -37,6 +37,35 @@ pub struct RotoString;
 pub mod ast {
     #[derive(Clone, Copy, Debug, PartialEq, Eq, PartialOrd, Ord, Hash)]
     pub struct Identifier(pub u32);
+    impl Identifier {
+        /// inverse of From<&str> (the real Identifier is an interned string)
+        pub fn as_str(&self) -> &'static str {
+            match self.0 {
+                0 => "bool",
+                1 => "char",
+                2 => "u8",
+                3 => "u16",
+                4 => "u32",
+                5 => "u64",
+                6 => "i8",
+                7 => "i16",
+                8 => "i32",
+                9 => "i64",
+                10 => "f32",
+                11 => "f64",
+                13 => "Asn",
+                14 => "IpAddr",
+                15 => "Prefix",
+                16 => "String",
+                17 => "Verdict",
+                18 => "Result",
+                19 => "Option",
+                20 => "List",
+                21 => "Host",
+                _ => "?",
+            }
+        }
+    }
     impl From<&str> for Identifier {
         /// injective on the type names that occur in the unit
         fn from(s: &str) -> Self {
